@@ -143,7 +143,11 @@ template <typename LoggerType>
 class endpoints {
     using logger_type = LoggerType;
 
+#ifdef BOOST_MQTT5_VERIF
+    BOOST_MQTT5_VERIF_RESOLVER_TYPE _resolver;
+#else
     asio::ip::tcp::resolver _resolver;
+#endif
     asio::steady_timer& _connect_timer;
 
     std::vector<authority_path> _servers;
